@@ -73,6 +73,8 @@ func (o storeOp) String() string {
 }
 
 type genCtx struct {
+	quick   bool // quick tier: bulk loads stay at the first chunk boundary
+	live    int // live signatures in the model (kept by apply)
 	bulked  bool
 	n       int
 	autoIDs []string
@@ -140,7 +142,15 @@ func genOp(t *vs.Tape, g *genCtx) storeOp {
 	switch k {
 	case opBulkAdd:
 		g.bulked = true
-		n := []int{999, 1000, 1001, 1999, 2000, 2001, 2500}[t.Intn(7, "bulk.n")]
+		// the TOTAL number of live signatures lands on / around the 1000-entry chunk boundaries
+		total := []int{1000, 2000, 999, 1001, 1999, 2001, 2500}[t.Weighted("bulk.total", 3, 3, 1, 1, 1, 1, 1)]
+		if g.quick && total > 1001 {
+			total = []int{1000, 1001, 999}[total%3]
+		}
+		n := total - g.live
+		if n < 1 {
+			n = 1000
+		}
 		th := topoHashes()
 		fh := fuzzyHashes()
 		for i := 0; i < n; i++ {
@@ -255,6 +265,7 @@ func openStore(m *storeModel) (*PebbleScanner, error) {
 // violation if the store's answer (ok / error) disagrees with the model.
 func (e *storeEnv) apply(op storeOp, g *genCtx) *vs.Violation {
 	m := e.m
+	defer func() { g.live = len(m.sigs) }()
 	switch op.Kind {
 	case opAdd:
 		sig := cloneSig(op.Sigs[0])
@@ -391,7 +402,7 @@ func runC06(t *vs.Tape, cfg map[string]string) (res vs.Result) {
 	simdisk.SetTuning(tu)
 	defer simdisk.SetTuning(nil)
 
-	g := &genCtx{swarm: swarmWeights(t, false)}
+	g := &genCtx{swarm: swarmWeights(t, false), quick: cfg["tier"] != "thorough"}
 	nOps := 1 + t.Weighted("nops", 1, 2, 3, 4, 4, 3, 2, 2, 1, 1, 1, 1)*5 + t.Intn(5, "nops.lo")
 	m := newStoreModel()
 	s, err := openStore(m)
